@@ -218,13 +218,16 @@ def plan(seed, table, matrix, quick, pool):
         row = table[m]
         phs = [a['ph'] for a in row['alts'] if a['ph']]
         own = pool.get(m) or pool.get(row['kinds'][0] if row['kinds'] else '', [])
-        for rep in range(2 if quick else 8):
-            v1 = rng.choice(own) if own and rng.random() < 0.7 else (phs[0] if phs else 'a')
-            v2 = rng.choice(own) if own and rng.random() < 0.5 else (phs[-1] if phs else 'b')
-            if len(v1) > 80 or '\n' in v1:
-                v1 = phs[0] if phs else 'a'
-            if len(v2) > 80 or '\n' in v2:
-                v2 = phs[-1] if phs else 'b'
+        short = [t for t in own if len(t) <= 80 and '\n' not in t]
+        na = [t for t in short if not t.isascii()]
+        for rep in range(3 if quick else 9):
+            # rep 0: the placeholders; then alternately non-ASCII and any corpus fragment of the mode's own kind
+            if rep % 3 == 0 and rep < 3 or not short:
+                v1, v2 = (phs[0] if phs else 'a'), (phs[-1] if phs else 'b')
+            elif rep % 3 == 1 and na:
+                v1, v2 = rng.choice(na), rng.choice(short)
+            else:
+                v1, v2 = rng.choice(short), rng.choice(na or short)
             for name, text in fr.escapes(row, v1, v2):
                 cases.append({'mode': m, 'text': text, 'cat': name, 'kind': ''})
 
